@@ -34,7 +34,10 @@ def cbDist (ids : List Nat) (table : Array Nat) (a b : List Nat) : Float32 :=
     let n := ids.length
     let v := table.getD (if i < j then pairIndex n i j else pairIndex n j i) 0
     -- entries from 2^25 on are the bit pattern of the distance (distances a few ulps apart)
-    if v ≥ 2 ^ 25 then Float32.ofBits v.toUInt32 else Float32.ofNat v
+    -- entries in (2^24, 2^25) are the bit pattern + 2^24 (subnormal distances)
+    if v ≥ 2 ^ 25 then Float32.ofBits v.toUInt32
+    else if v > 2 ^ 24 then Float32.ofBits (v - 2 ^ 24).toUInt32
+    else Float32.ofNat v
   | _, _ => Float32.ofNat (mix a b)
 
 def parseMethod (s : String) : Option Method :=
